@@ -119,6 +119,18 @@ def targeted_families(schema):
     ua = FragDef("UA", "User", [Field("id"), Field("friend", [TN(), Spread("NA")])])
     na = FragDef("NA", "Node", [TN(), Field("id"), Inline("User", [Spread("UA")])])
     out.append(("mutually recursive fragments", Doc([ua, na, Op("query", "Op", [Field("me", [Spread("UA")])])]), None))
+    # the same type condition at several places of one operation, each place the FIRST to use some enum / custom scalar /
+    # fragment (every type a module mentions has to be defined, wherever it is first met)
+    sel = [Field("node", [TN(), Inline("User", [Field("name")])]),
+           Field("nodes", [TN(), Inline("User", [Field("role"), Field("since"), Spread("UserB")]), Inline("Org", [Field("kind")])]),
+           Field("things", [TN(), Inline("User", [Field("createdAt"), Field("pet", [TN(), Inline("Cat", [Field("lives")])])]), Inline("Org", [Field("kindOf")])])]
+    out.append(("repeated type conditions, later ones introduce new types", Doc(space.used_fragments(sel, lib) + [Op("query", "Op", sel)]), None))
+    sel = [Field("me", [Field("id")]), Field("things", [TN(), Inline("User", [Field("role"), Field("since")])]),
+           Field("outcomes", [TN(), Inline("http_error", [Field("order"), Field("stamp")]), Inline("User", [Field("roles")])])]
+    out.append(("object field first, then the same type as a type condition", Doc([Op("query", "Op", sel)]), None))
+    # the same response key selected twice in one selection set (legal: the selections merge)
+    out.append(("same field twice in one selection set", Doc([Op("query", "Op", [Field("me", [Field("name"), Field("id"), Field("name")])])]),
+                {"same_response_key_twice_in_one_selection_set"}))
     # multi-operation documents (no operation selected => one module each, compiled together)
     sel_a = [Field("me", [Spread("UserA"), Field("role")])]
     sel_b = [Field("rename", [Spread("UserA")], args=[("id", "$id"), ("name", '"n"')])]
